@@ -327,7 +327,7 @@ fn main() {
     // powf on its stated range [0.5, 5)
     {
         let (lo, hi) = (0x3800_0000u32, 0x5200_0000u32);
-        let g: u64 = if t { 4096 } else { 768 };
+        let g: u64 = cfg.extra.get("powgrid").and_then(|s| s.parse().ok()).unwrap_or(if t { 4096 } else { 768 });
         let step = ((hi - lo) as u64 / g) as u32;
         let (r2, a2) = (res.clone(), amb.clone());
         cells.push(CellDef::new(
@@ -356,6 +356,42 @@ fn main() {
                 }
             },
         ));
+    }
+    if let Ok(txt) = std::fs::read_to_string(format!("{}/known_findings/C15_hard_inputs.txt", cfg.verif_dir)) {
+        let mut l: Vec<u128> = vec![];
+        for line in txt.lines() {
+            let mut it = line.split_whitespace();
+            if it.next() == Some("powf") {
+                let x = it.next().and_then(|h| u32::from_str_radix(h.trim_start_matches("0x"), 16).ok());
+                let y = it.next().and_then(|h| u32::from_str_radix(h.trim_start_matches("0x"), 16).ok());
+                if let (Some(x), Some(y)) = (x, y) {
+                    for d in -1i32..=1 {
+                        l.push((x as u128) << 32 | y.wrapping_add(d as u32) as u128);
+                    }
+                }
+            }
+        }
+        if !l.is_empty() {
+            l.sort();
+            l.dedup();
+            let (r2, a2) = (res.clone(), amb.clone());
+            cells.push(CellDef::new("C15", "P32E2/powf#hard", Space::list(l, "worst pairs found by dense grid scans, y +-1 encoding"), move |k| {
+                let (x, y) = k2(k);
+                let (px, py) = (P32E2::from_bits(x), P32E2::from_bits(y));
+                let yv = px.to_f64().powf(py.to_f64());
+                match guard(|| px.powf(py).to_bits()) {
+                    None => Out::cmp(None, 0, true),
+                    Some(gb) => {
+                        let before = r2.asked.load(Ordering::Relaxed);
+                        let (ok, want) = judge(&r2, "powf", 5, gb, yv, x, Some(y));
+                        if r2.asked.load(Ordering::Relaxed) != before {
+                            a2.fetch_add(1, Ordering::Relaxed);
+                        }
+                        Out { ok, nt: true, got: gb as u128, want: want as u128, ops: 1, panicked: false }
+                    }
+                }
+            }));
+        }
     }
     let mut extra = Extra::default();
     let (r3, a3) = (res.clone(), amb.clone());
